@@ -112,6 +112,10 @@ impl<'a> World<'a> {
         put("max_log_files", dbg(&o.max_log_files.map(|v| v as usize)));
         put("max_archived_log_files", dbg(&o.max_archived_log_files.map(|v| v as usize)));
         put("network_id", dbg(&o.network_id));
+        // the network id every protocol string of the node carries (trailing path segment), in the order
+        // NETWORK_ID, node identify, client identify, request/response, identify protocol
+        let nid = o.network_id.unwrap_or(1).to_string();
+        put("derived.protocol_network_ids", dbg(&vec![nid.clone(), nid.clone(), nid.clone(), nid.clone(), nid]));
         put("derived.rewards_address", dbg(&rewards_of(o.rewards)));
         put("derived.evm_network", dbg(&evm_of(o.evm)));
         put("root_dir", dbg(&Some(data_base.join(label))));
